@@ -1,4 +1,4 @@
 SPECIFICATION Spec
 CONSTANTS Variant = "no_block_padding" BaseSet = "all"
-INVARIANTS NeverWrongSuccess DamageOutsidePayloadDetected TruncatedNeverComplete BoundaryCutIsPrefix NoFaultNoError RetDocumented
+INVARIANTS NeverWrongSuccess DamageOutsidePayloadDetected TruncatedNeverComplete BoundaryCutIsPrefix UnseenIsHarmless NoFaultNoError RetDocumented
 CHECK_DEADLOCK FALSE
